@@ -67,6 +67,34 @@ Section AceFix.
                     /\ parse_option (t_option_line t) = Ok (a_flags a, a_logs a)
                     /\ split_dstport_option (dp ++ t_option_line t) = (dp, t_option_line t).
 
+  (** the rendered line starts with a well-formed head followed by at least the protocol token *)
+  Lemma ace_head_tokens : exists H sq act rest, head_toks H sq act /\ rest <> [] /\ split_ws (render_ace c t) = H ++ rest.
+  Proof.
+    destruct Hsrc_toks as (S1 & S2 & S3). destruct Hdst_toks as (D1 & D2).
+    destruct Hsp as (P1 & P2 & P3). destruct Hdp as (Q1 & Q2 & Q3). destruct Hopt as (O1 & O2 & O3 & O4).
+    set (act := if a_permit a then "permit"%string else "deny"%string).
+    assert (Tact : token act) by (unfold act; destruct (a_permit a); split; try reflexivity; discriminate).
+    assert (Aact : is_action act) by (unfold act, is_action; destruct (a_permit a); auto).
+    set (H := if N.eqb (t_seq t) 0 then [act] else [dec (t_seq t); act]).
+    set (sq := if N.eqb (t_seq t) 0 then ""%string else dec (t_seq t)).
+    assert (HH : head_toks H sq act).
+    { unfold H, sq. destruct (N.eqb (t_seq t) 0); [now apply HT_plain|now apply HT_seq]. }
+    assert (Tdec : token (dec (t_seq t))).
+    { pose proof (undec_dec (t_seq t)) as U. assert (I : is_digits (dec (t_seq t)) = true) by (unfold is_digits; now rewrite U).
+      destruct (is_digits_chars _ I) as [NE D]. split; [|exact NE].
+      apply (all_chars_weaken is_digit); [|exact D]. intros ch Hc.
+      assert (Hd : dd ch = true) by (unfold dd; now rewrite Hc). unfold nws. now rewrite (dd_not_ws ch Hd). }
+    exists H, sq, act, (proto :: SRC ++ sp ++ DST ++ (dp ++ t_option_line t)).
+    split; [exact HH|]. split; [discriminate|].
+    unfold render_ace. fold a pl pc sp dp has_port. rewrite Hext. fold proto act.
+    rewrite split_ws_join, flat_split_filter. rewrite !flat_map_app. cbn [flat_map]. rewrite !app_nil_r.
+    rewrite S1, D1, (split_ws_one _ Tact), (split_ws_one _ Hproto_tok).
+    rewrite (flat_split_tokens _ P1), (flat_split_tokens _ Q1), (flat_split_tokens _ O1).
+    unfold H. destruct (N.eqb (t_seq t) 0); cbn [flat_map app].
+    - reflexivity.
+    - rewrite (split_ws_one _ Tdec). cbn [app]. reflexivity.
+  Qed.
+
   Theorem ace_text_fixpoint : parse_ace_text c (render_ace c t) = Ok t.
   Proof.
     destruct Hsrc_toks as (S1 & S2 & S3). destruct Hdst_toks as (D1 & D2).
@@ -132,4 +160,12 @@ Theorem ace_fixpoint c t SRC DST :
 Proof.
   intros Hext (H1 & H2 & H3 & H4 & H5 & H6 & H7 & H8 & H9 & H10).
   now apply (ace_text_fixpoint c t Hext SRC DST).
+Qed.
+
+Lemma ace_head c t SRC DST :
+  t_type_ext t = true -> fields_fixed c t SRC DST ->
+  exists H sq act rest, head_toks H sq act /\ rest <> [] /\ split_ws (render_ace c t) = H ++ rest.
+Proof.
+  intros Hext (H1 & H2 & H3 & H4 & H5 & H6 & H7 & H8 & H9 & H10).
+  now apply (ace_head_tokens c t Hext SRC DST).
 Qed.
